@@ -275,6 +275,50 @@ def clean_cases(d):
         elif len(fs) > 1:
             g2 = d.choice([x for x in fs if x is not f])
             stmts.append(["expr", ["bin", d.choice(["<", "<=", ">", ">="]), ["f", f["name"]], ["f", g2["name"]]]])
+    if d.chance(45):
+        # a multi-interval domain (in-list with gaps) met by bounds that sit exactly on, just inside and just outside
+        # the interval ends - literals, a non-random field holding the value, or another field with its own small domain
+        f = max(fs, key=lambda x: x["w"])
+        hi = (1 << f["w"]) - 1
+        pts = sorted(set(d.sample(list(range(0, hi + 1)), min(hi + 1, d.randint(3, 6)))))
+        ivs = []
+        i = 0
+        while i + 1 < len(pts):
+            if not ivs or pts[i] > ivs[-1][1] + 1:
+                ivs.append([pts[i], pts[i + 1]] if d.chance(75) else [pts[i], pts[i]])
+            i += 2
+        if not ivs:
+            ivs = [[0, min(1, hi)]]
+        items = [["rng", ["lit", a], ["lit", b]] if a != b else ["lit", a] for a, b in ivs]
+        stmts.insert(d.randint(0, len(stmts)), ["expr", ["in", ["f", f["name"]], d.sample(items, len(items))]])
+        ends = sorted(set(x for a, b in ivs for x in (a - 1, a, a + 1, b - 1, b, b + 1) if 0 <= x <= hi))
+        for bi in range(d.randint(1, 2)):
+            k = d.choice(ends)
+            r = d.randint(0, 99)
+            op = d.choice([">=", ">", "<=", "<", ">=", "<="])
+            if bi == 0 or d.chance(50):
+                # the bound that leaves exactly ONE value of an interval: its last value for a lower bound, its first
+                # value for an upper bound
+                a_, b_ = d.choice(ivs)
+                k = {">=": b_, ">": b_ - 1, "<=": a_, "<": a_ + 1}[op]
+                k = min(max(k, 0), hi)
+            mir = {">=": "<=", ">": "<", "<=": ">=", "<": ">"}[op]
+            if r < 35:
+                st = ["bin", op, ["f", f["name"]], ["lit", k]]
+            elif r < 60:
+                st = ["bin", mir, ["ulit", k, f["w"]], ["f", f["name"]]]
+            elif r < 80 and nr and k <= 7:
+                nr[0]["init"] = k
+                st = ["bin", op, ["f", f["name"]], ["f", nr[0]["name"]]] if d.chance(50) else ["bin", mir, ["f", nr[0]["name"]], ["f", f["name"]]]
+            elif len(fs) > 1:
+                g2 = [x for x in fs if x is not f][0]
+                k2 = [x for x in ends if x <= (1 << g2["w"]) - 1] or [0]
+                vals = sorted(set(d.sample(k2, min(len(k2), d.randint(1, 2)))))
+                stmts.append(["expr", ["in", ["f", g2["name"]], [["lit", v] for v in vals]]])
+                st = ["bin", op, ["f", f["name"]], ["f", g2["name"]]]
+            else:
+                st = ["bin", op, ["f", f["name"]], ["lit", k]]
+            stmts.insert(d.randint(0, len(stmts)), ["expr", st])
     if not stmts:
         stmts.append(["expr", ["bin", "<=", ["f", fs[0]["name"]], ["lit", 2]]])
     prog = {"enums": {}, "classes": [{"name": "T", "fields": fs + nr, "blocks": [{"name": "c0", "stmts": stmts}]}]}
